@@ -90,7 +90,12 @@ macro_rules! div {
         if $div.approximate_eq(0) {
             Err($crate::VariantError::DivisionByZero)
         } else {
-            Ok(($nom / $div).fit_to_type())
+            let quotient = $nom / $div;
+            if quotient.is_finite() {
+                Ok(quotient.fit_to_type())
+            } else {
+                Err($crate::VariantError::Overflow)
+            }
         }
     };
 
@@ -98,7 +103,12 @@ macro_rules! div {
         if $div.approximate_eq(0) {
             Err($crate::VariantError::DivisionByZero)
         } else {
-            Ok(($nom as $cast / $div as $cast).fit_to_type())
+            let quotient = $nom as $cast / $div as $cast;
+            if quotient.is_finite() {
+                Ok(quotient.fit_to_type())
+            } else {
+                Err($crate::VariantError::Overflow)
+            }
         }
     };
 }
@@ -118,6 +128,24 @@ fn long_result(n: Option<i64>) -> Result<Variant, VariantError> {
     match n {
         Some(n) if (MIN_LONG..=MAX_LONG).contains(&n) => Ok(Variant::VLong(n)),
         _ => Err(VariantError::Overflow),
+    }
+}
+
+/// The SINGLE result of `+`, `-` or `*`: `Overflow` unless it is finite.
+fn single_result(f: f32) -> Result<Variant, VariantError> {
+    if f.is_finite() {
+        Ok(Variant::VSingle(f))
+    } else {
+        Err(VariantError::Overflow)
+    }
+}
+
+/// The DOUBLE result of `+`, `-` or `*`: `Overflow` unless it is finite.
+fn double_result(f: f64) -> Result<Variant, VariantError> {
+    if f.is_finite() {
+        Ok(Variant::VDouble(f))
+    } else {
+        Err(VariantError::Overflow)
     }
 }
 
@@ -218,16 +246,16 @@ impl Variant {
     pub fn plus(self, other: Self) -> Result<Self, VariantError> {
         match self {
             Self::VSingle(f_left) => match other {
-                Self::VSingle(f_right) => Ok(Self::VSingle(f_left + f_right)),
-                Self::VDouble(d_right) => Ok(Self::VDouble(f_left as f64 + d_right)),
-                Self::VInteger(i_right) => Ok(Self::VSingle(f_left + i_right as f32)),
-                Self::VLong(l_right) => Ok(Self::VSingle(f_left + l_right as f32)),
+                Self::VSingle(f_right) => single_result(f_left + f_right),
+                Self::VDouble(d_right) => double_result(f_left as f64 + d_right),
+                Self::VInteger(i_right) => single_result(f_left + i_right as f32),
+                Self::VLong(l_right) => single_result(f_left + l_right as f32),
                 _ => other.plus(self),
             },
             Self::VDouble(d_left) => match other {
-                Self::VDouble(d_right) => Ok(Self::VDouble(d_left + d_right)),
-                Self::VInteger(i_right) => Ok(Self::VDouble(d_left + i_right as f64)),
-                Self::VLong(l_right) => Ok(Self::VDouble(d_left + l_right as f64)),
+                Self::VDouble(d_right) => double_result(d_left + d_right),
+                Self::VInteger(i_right) => double_result(d_left + i_right as f64),
+                Self::VLong(l_right) => double_result(d_left + l_right as f64),
                 _ => other.plus(self),
             },
             Self::VString(s_left) => match other {
@@ -250,16 +278,16 @@ impl Variant {
     pub fn minus(self, other: Self) -> Result<Self, VariantError> {
         match self {
             Self::VSingle(f_left) => match other {
-                Self::VSingle(f_right) => Ok(Self::VSingle(f_left - f_right)),
-                Self::VDouble(d_right) => Ok(Self::VDouble(f_left as f64 - d_right)),
-                Self::VInteger(i_right) => Ok(Self::VSingle(f_left - i_right as f32)),
-                Self::VLong(l_right) => Ok(Self::VSingle(f_left - l_right as f32)),
+                Self::VSingle(f_right) => single_result(f_left - f_right),
+                Self::VDouble(d_right) => double_result(f_left as f64 - d_right),
+                Self::VInteger(i_right) => single_result(f_left - i_right as f32),
+                Self::VLong(l_right) => single_result(f_left - l_right as f32),
                 _ => other.minus(self).and_then(|x| x.negate()),
             },
             Self::VDouble(d_left) => match other {
-                Self::VDouble(d_right) => Ok(Self::VDouble(d_left - d_right)),
-                Self::VInteger(i_right) => Ok(Self::VDouble(d_left - i_right as f64)),
-                Self::VLong(l_right) => Ok(Self::VDouble(d_left - l_right as f64)),
+                Self::VDouble(d_right) => double_result(d_left - d_right),
+                Self::VInteger(i_right) => double_result(d_left - i_right as f64),
+                Self::VLong(l_right) => double_result(d_left - l_right as f64),
                 _ => other.minus(self).and_then(|x| x.negate()),
             },
             Self::VInteger(i_left) => match other {
@@ -279,16 +307,16 @@ impl Variant {
     pub fn multiply(self, other: Self) -> Result<Self, VariantError> {
         match self {
             Self::VSingle(f_left) => match other {
-                Self::VSingle(f_right) => Ok(Self::VSingle(f_left * f_right)),
-                Self::VDouble(d_right) => Ok(Self::VDouble(f_left as f64 * d_right)),
-                Self::VInteger(i_right) => Ok(Self::VSingle(f_left * i_right as f32)),
-                Self::VLong(l_right) => Ok(Self::VSingle(f_left * l_right as f32)),
+                Self::VSingle(f_right) => single_result(f_left * f_right),
+                Self::VDouble(d_right) => double_result(f_left as f64 * d_right),
+                Self::VInteger(i_right) => single_result(f_left * i_right as f32),
+                Self::VLong(l_right) => single_result(f_left * l_right as f32),
                 _ => Err(VariantError::TypeMismatch),
             },
             Self::VDouble(d_left) => match other {
-                Self::VDouble(d_right) => Ok(Self::VDouble(d_left * d_right)),
-                Self::VInteger(i_right) => Ok(Self::VDouble(d_left * i_right as f64)),
-                Self::VLong(l_right) => Ok(Self::VDouble(d_left * l_right as f64)),
+                Self::VDouble(d_right) => double_result(d_left * d_right),
+                Self::VInteger(i_right) => double_result(d_left * i_right as f64),
+                Self::VLong(l_right) => double_result(d_left * l_right as f64),
                 _ => other.multiply(self),
             },
             Self::VInteger(i_left) => match other {
